@@ -14,7 +14,7 @@ def fnv(b):
     return h
 
 class Edge:
-    dd_at_rule = False; bl = False; blf = False      # defaults for ground truth pickled by earlier versions
+    dd_at_rule = False; bl = False; blf = False; selfref = None      # defaults for ground truth pickled by earlier versions
     def __init__(s, idx):
         s.idx = idx; s.outs = []; s.n_imp_out = 0
         s.exp = []; s.imp = []; s.oo = []; s.vals = []
@@ -93,9 +93,12 @@ class Graph:
             outs = ' '.join(e.outs[:len(e.outs) - e.n_imp_out])
             if e.n_imp_out: outs += ' | ' + ' '.join(e.outs[len(e.outs) - e.n_imp_out:])
             l = 'build %s: %s' % (outs, 'phony' if e.phony else 'r%d' % e.idx)
-            if e.exp: l += ' ' + ' '.join(e.exp)
+            # selfref: the legacy CMake form "build a: phony ... a ..." (one output, nothing implicit); the parser erases that input
+            # (with a warning), so it is no part of the ground-truth input lists
+            exp = e.exp + ([e.out0] if e.selfref == 'exp' else []); oo = e.oo + ([e.out0] if e.selfref == 'oo' else [])
+            if exp: l += ' ' + ' '.join(exp)
             if e.imp: l += ' | ' + ' '.join(e.imp)
-            if e.oo: l += ' || ' + ' '.join(e.oo)
+            if oo: l += ' || ' + ' '.join(oo)
             if e.vals: l += ' |@ ' + ' '.join(e.vals)
             L.append(l)
             if getattr(e, 'bl', False) and not e.phony: L.append('  command = ' + e.cmd())   # build-level binding shadows the rule's
@@ -177,6 +180,7 @@ def gen_graph(rnd, nedges, feat=None, wf_reads=True):
             e.phony = True; e.outs = ['ph%d' % idx]
             e.exp = pick(rnd.randrange(0, 3))
             if rnd.random() < 0.3: e.oo = pick(1)
+            if rnd.random() < 0.12: e.selfref = rnd.choice(['exp', 'oo'])     # legacy CMake form: names itself as an input (dropped with a warning)
         else:
             e.outs = [d + 'o%d' % idx]
             if rnd.random() < f['multiout']:
